@@ -129,6 +129,8 @@ pub struct CheckSpec {
     pub components_real: &'static [&'static str],
     pub components_stub: &'static [&'static str],
     pub assumptions: &'static [&'static str],
+    /// (scenario name, number of cases) of a completely enumerable fault subspace, if any
+    pub enumerated: Option<(&'static str, u64)>,
 }
 
 impl CheckSpec {
